@@ -79,6 +79,14 @@ def generate(seed, run, tier):
     return rec
 
 
+def snap(arrays):
+    """private copy of returned arrays, taken before the oracle calls anything else in the library
+    (a returned array must be judged as it was at the moment the call returned)"""
+    if isinstance(arrays, dict):
+        return {k: np.array(v, copy=True) for k, v in arrays.items()}
+    return arrays
+
+
 def in_gym_space(space, arrays):
     """own containment test for gym Dict-of-Box spaces (plus the space's own contains)"""
     if space is None or not isinstance(arrays, dict):
@@ -179,10 +187,10 @@ class Runner:
 
     # ---- the oracle's expectations
     def expect_obs(self, cl):
-        return cl.orep.convert(cl.O)
+        return snap(cl.orep.convert(cl.O))
 
     def expect_state(self, cl):
-        return cl.srep.convert(cl.S) if cl.srep is not None else None
+        return snap(cl.srep.convert(cl.S)) if cl.srep is not None else None
 
     def check_view(self, cl, where, returned, info=None):
         """`returned` is what reset/step handed back at the top layer"""
@@ -229,6 +237,7 @@ class Runner:
         if cl.w is not None and cl.srep is None:
             return
         r = sut(top.reset)
+        r = snap(r)
         S = sut(cl.twin.functional_reset)
         if isinstance(r, Raised) or isinstance(S, Raised):
             if isinstance(r, Raised) != isinstance(S, Raised):
@@ -254,6 +263,9 @@ class Runner:
             self.violate('action_space_size', 'action_space', f'{n}_vs_{len(cl.actions)}', 'Discrete(n) differs from the configured number of actions')
             return
         r = sut(top.step, i)
+        if isinstance(r, tuple) and len(r) == 4:
+            later = r  # the very objects handed out (checked again after the oracle used the library)
+            r = (snap(r[0]), r[1], r[2], dict(r[3], observation=snap(r[3]['observation'])) if isinstance(r[3], dict) and 'observation' in r[3] else r[3])
         f = sut(cl.twin.functional_step, cl.S, action_of(cl.actions[i]))
         if isinstance(r, Raised) or isinstance(f, Raised):
             if isinstance(r, Raised) != isinstance(f, Raised):
@@ -313,12 +325,12 @@ class Runner:
     def op_read(self, cl, _k=0):
         if not cl.started:
             return
-        o = sut(lambda: cl.g.observation)
+        o = snap(sut(lambda: cl.g.observation))
         if isinstance(o, Raised) or not arrays_equal(o, self.expect_obs(cl)):
             self.violate('observation_property_differs', 'GymEnvironment.observation', cl.orep_name, 'GymEnvironment.observation is not the representation of the current observation')
             return
         if cl.srep is not None:
-            s = sut(lambda: cl.g.state)
+            s = snap(sut(lambda: cl.g.state))
             if isinstance(s, Raised) or not arrays_equal(s, self.expect_state(cl)):
                 self.violate('state_property_differs', 'GymEnvironment.state', cl.srep_name, 'GymEnvironment.state is not the representation of the current state')
 
